@@ -24,21 +24,25 @@ BUILD_VARIANTS = {
     "c07_ndebug": C.VARIANTS["san_ndebug"] + ["-fsanitize=float-cast-overflow"],
 }
 PARTIAL = [
-    "proved (Lean, all inputs of the stated domain): no signed overflow, no failed assertion and termination for the "
-    "row legalizer (getCost/push/getPlacement), computeSubdivisions, the Abacus cost arithmetic "
-    "(evaluatePlacement/placeCell distances) and the obstacle rectangles fed to Row::freespace; the checked value equals "
-    "the unbounded model's value",
+    "proved (Lean, every input of the stated domain, both assert-enabled and NDEBUG): no signed overflow, no failed "
+    "assertion, no division by zero and termination for RowLegalizer getCost/push/getPlacement (rowleg_no_fault, "
+    "rowleg_session_no_fault, rowleg_terminates), computeSubdivisions (subdivisions_no_fault), the Abacus cost arithmetic "
+    "of evaluatePlacement/placeCell (abacus_no_fault) and the obstacle rectangles fed to Row::freespace "
+    "(freespace_no_fault); the checked value equals the unbounded model's value",
     "NOT proved, monitored by the sanitized harness only (two builds, ASan+UBSan+float-cast-overflow, forked child per "
-    "case with timeout): every other part of placeGlobal/legalize/placeDetailed — Eigen (conjugate gradients), "
+    "case with timeout): every other part of placeGlobal/legalize/placeDetailed - Eigen (conjugate gradients), "
     "boost::polygon (Row::freespace), lemon (network simplex), iostream, all float->int conversions, the density "
-    "legalizer / transportation solvers, TetrisLegalizer, DetailedPlacement, IncrNetModel, RowReordering and the glue "
-    "between the modelled cores",
-    "out-of-bounds accesses are only observable through ASan (heap/stack/global redzones); std::vector::operator[] inside "
-    "an allocation's slack is not detected (no _GLIBCXX_ASSERTIONS build)",
-    "termination outside the modelled cores is observed as 'no timeout on the generated cases' (bounded by maxNbSteps, "
-    "nbPasses, CG maxIterations), not proved",
-    "row-legalizer theorem assumes at most 32768 cells per row segment (coarse bound on the 64-bit cost accumulator); "
-    "wider rows are exercised by the 2^22 stream only",
+    "legalizer and transportation solvers (fixed-point cost scaling), TetrisLegalizer, DetailedPlacement, IncrNetModel, "
+    "RowReordering and the glue between the modelled cores (DESIGN's tetris/transp/incrnet/detplace theorems are not built)",
+    "out-of-bounds accesses are only observable through ASan redzones; std::vector::operator[] inside an allocation's "
+    "slack is not detected (no _GLIBCXX_ASSERTIONS build)",
+    "termination outside the modelled cores is observed as 'no case exceeds the timeout (re-run once with 8x the budget "
+    "before being reported)', bounded in the code by maxNbSteps, nbPasses, CG maxIterations; not proved",
+    "rowleg theorems assume at most 2^15 cells per row segment (coarse bound on the 64-bit cost accumulator: 2^16 queue "
+    "entries x 2^46 per term); longer rows are exercised by the 2^22 stream only",
+    "parameter box: the purely numerical knobs are kept at CG tolerance >= 1e-6, approximation/cutoff distance >= 0.1; "
+    "penalty.updateFactor up to 2 with maxNbSteps = 400 is inside the box and is what overflows the float penalty "
+    "(fixes/c07-global-nonfinite-placement.diff turns the resulting NaN into an exception)",
 ]
 ASSUMPTIONS = [
     "C++ int is 32-bit two's complement, long long 64-bit (g++ 12, x86-64)",
